@@ -61,10 +61,20 @@ def check_points(ctx, case) -> None:
     exact = bool(case.get("exact"))
     h = make(name)
     ctx.check(h.name == name, "factory-name", case, {"got": h.name})
+    layout = case.get("layout")
+    if layout == "f32":  # degrees exactly representable in float32, presented as a float32 array
+        xs = [float(np.float32(v)) for v in xs]
     arr = np.array(xs, dtype=float)
     if shape:
         arr = arr.reshape(shape)
+    if layout == "F" and arr.ndim == 2:
+        arr = np.asfortranarray(arr)  # same values and shape, column-major memory
+    elif layout == "f32":
+        arr = arr.astype(np.float32)
+    keep = arr.copy()
     got = h.hedge(arr)
+    ctx.check(bool(np.array_equal(arr, keep, equal_nan=True)), "argument-mutated", case,
+              {"before": keep.reshape(-1).tolist()[:6], "after": np.asarray(arr).reshape(-1).tolist()[:6]})
     ctx.check(isinstance(got, np.ndarray) and got.shape == arr.shape, "shape", case,
               {"got_shape": list(np.shape(got)), "want": list(arr.shape)})
     flat = np.asarray(got, dtype=float).reshape(-1)
@@ -161,7 +171,8 @@ def cases_points():
             r, c = draw(st.integers(1, 3)), draw(st.integers(1, 3))
             xs = draw(st.lists(unit_doubles(), min_size=r * c, max_size=r * c))
             shape = [r, c]
-        return {"hedge": name, "xs": xs, "shape": shape, "exact": False}
+        return {"hedge": name, "xs": xs, "shape": shape, "exact": False,
+                "layout": draw(st.sampled_from([None, None, "F", "f32"]))}
 
     return s()
 
